@@ -160,6 +160,28 @@ def run(ctx):
     bins += short
     texts = lst_hostile_text() + hostile_text()
 
+    # 0. Readers, Decoders and Unmarshal created WITH A CATALOG (NewReaderCat, ion.System): symbol-table histories over
+    #    catalogs whose tables are shorter / longer than the declared max_id, every symbol ID of the context probed
+    #    (the reserved gaps too), in binary and in text; model vs code for cattrav, no-crash oracle for both
+    import c10
+    hs = c10.gen_histories(ctx)
+    rng.shuffle(hs)
+    cat_lines = []
+    for h in hs[: ctx.scale(700, 12000)]:
+        cat_lines += h.lines()
+    cat_lines = sorted(set(cat_lines))
+    ctx.correspond("K7-catalog-readers", cat_lines, oracle=bad_outcome, nontrivial=lambda ln, m: True)
+    sys_lines = ["catsys" + ln[len("cattrav"):] for ln in cat_lines]
+    sys_out = run_go(sys_lines)
+    nbad = 0
+    for ln, g in zip(sys_lines, sys_out):
+        if not g.startswith("trav:") or "panic" in g or g.startswith(("fatal", "timeout")):
+            nbad += 1
+            ctx.fail("property", "C06-system-catalog", ln[:3000], "ion.System{Catalog} reader / Unmarshal: " + g[:200])
+    ctx.count("C06-system-catalog", len(sys_lines), sys_lines, crashes=nbad, sample=(sys_lines[0][:160] + " => " + sys_out[0]) if sys_lines else None)
+    if refuted(ctx, "catalog"):
+        return
+
     # 1. plain traversal: model vs real reader on every binary input
     lines = ["btrav 0 " + iongen.hx(b) for b in bins]
     mo, go = ctx.correspond("K2-binreader-hostile", lines, canon=binlib.canon_trace_full, nontrivial=lambda ln, m: True,
